@@ -21,7 +21,7 @@ props.prop(
     not_decided='broadcasting numerics, evaluation of parsed strings, user functions',
     assumptions=['__div__/__rdiv__ are Python-2 leftovers (operator.div does not exist in Python 3): exempt'])
 props.also('C14',
-           'that what compute / replace_ids does to one operand is never conditioned on the other; that every ComponentLink subclass whose compute() reads a field of its own rewrites that field in replace_ids; that evaluating a parsed expression never removes names from the shared namespace; that the shared namespace is not overwritten after eval() either')
+           'that what compute / replace_ids does to one operand is never conditioned on the other; that every ComponentLink subclass whose compute() reads a field of its own rewrites that field in replace_ids; that evaluating a parsed expression never removes names from the shared namespace; that the shared namespace is not overwritten after eval() either; that the tag normalisation of parsed expressions keys its replacement table by the matched text (every spelling replaced)')
 
 ARITH = {'add': 'add', 'sub': 'sub', 'mul': 'mul', 'truediv': 'truediv', 'pow': 'pow'}
 BCL = 'glue.core.component_link.BinaryComponentLink'
